@@ -146,6 +146,7 @@ func runC13(c *Ctx) {
 	c.Rule(rb, "every acquired AtomicFile is committed, closed (incl. deferred), returned or stored on every path to a return; no write after Commit", 5)
 	c.Rule(rc, "code reachable from Transformer.Apply / PatchSet.Apply creates or truncates files only through lib/atomicfile; the source file is written only under canOverwrite", 8)
 	c.Rule(rd, "in the rewrite path every error of a copy/seek/write call is propagated before Commit", 5)
+	c.Rule("R13e", "between acquiring an AtomicFile and committing it, every fallible step's error is examined and its failure edge cannot reach Commit", 8)
 
 	afPkg := p.SSAPkg("lib/atomicfile")
 	if afPkg == nil {
@@ -248,6 +249,27 @@ func runC13(c *Ctx) {
 			c.Check(okDir, ra, "lib/atomicfile.New tempdir", p.Pos(tmp[0].Pos()), "temp file created in filepath.Dir(dest): same filesystem, rename is atomic", "temp file is not created in the destination's directory (rename may cross filesystems / not be atomic)")
 		}
 	}
+	// isSpecial: true only for a path that RESOLVES (os.Stat, following links) to a non-regular file
+	if sp := p.Func("lib/atomicfile.isSpecial"); sp == nil {
+		c.Undecided(ra, "atomicfile.isSpecial", "-", "function not found")
+	} else {
+		notReg := p.callGuard("Stat(path).Mode().IsRegular()==false", []string{"(io/fs.FileMode).IsRegular"}, -1, IsFalse, func(ci ssa.CallInstruction) bool {
+			return dependsOn(ci.Common().Args[0], func(x ssa.Value) bool {
+				call, _ := resultOf(x)
+				return call != nil && p.calleeName(call.Common()) == "os.Stat"
+			})
+		})
+		statOK := p.callGuard("os.Stat err==nil", []string{"os.Stat"}, 1, IsNil, nil)
+		n := 0
+		for _, r := range returnsOf(sp) {
+			if b, ok := boolConst(retVal(r, 0)); ok && !b {
+				continue
+			}
+			n++
+			missing, path := p.unguardedFromEntry(sp, r, notReg, statOK)
+			c.Check(len(missing) == 0, ra, fmt.Sprintf("lib/atomicfile.isSpecial true-return#%d", n), p.Pos(r.Pos()), "special only if os.Stat (following symlinks) says not regular", fmt.Sprintf("isSpecial can return true without %v: e.g. a symlink to a regular file would be opened directly and truncated in place", missing), path...)
+		}
+	}
 	if cl := p.Func("lib/atomicfile.(*atomicFile).Close"); cl == nil {
 		c.Undecided(ra, "(*atomicFile).Close", "-", "function not found")
 	} else {
@@ -333,6 +355,10 @@ func runC13(c *Ctx) {
 						}
 					}
 					c.Fail(rb, key, pos, fmt.Sprintf("the file is neither committed, closed nor returned on %d path(s) to a return (at%s): the temporary file is left next to the output", len(leaks), where), leaks[0].Path...)
+				}
+				// R13e: Commit only after every fallible step between acquisition and Commit succeeded
+				if res != nil {
+					c13CommitAfterSuccess(c, fn, call, res, key)
 				}
 				// no write after Commit
 				if res != nil {
@@ -511,6 +537,84 @@ func runC13(c *Ctx) {
 					c.Pass(rd, key, p.Pos(ci.Pos()), "error propagated")
 				}
 			}
+		}
+	}
+}
+
+// c13CommitAfterSuccess: for every error-returning call K that can execute between the
+// acquisition and a Commit of the same file, K's error must be examined and its failure
+// edge must not reach the Commit (a failed merge/copy must never be committed as the
+// complete new content).
+func c13CommitAfterSuccess(c *Ctx, fn *ssa.Function, acq *ssa.Call, res ssa.Value, key string) {
+	p := c.P
+	const rule = "R13e"
+	set, _ := aliasesOf(res)
+	var commits []*ssa.Call
+	for _, b := range fn.Blocks {
+		for _, in := range b.Instrs {
+			if ci, ok := in.(*ssa.Call); ok && p.isMethodCallOn(ci, set, map[string]bool{"Commit": true}) {
+				commits = append(commits, ci)
+			}
+		}
+	}
+	if len(commits) == 0 {
+		return
+	}
+	n := 0
+	for _, b := range fn.Blocks {
+		for _, in := range b.Instrs {
+			k, ok := in.(*ssa.Call)
+			if !ok || k == acq || errResultIndex(k.Common().Signature()) < 0 {
+				continue
+			}
+			isCommit := false
+			for _, cm := range commits {
+				if cm == k {
+					isCommit = true
+				}
+			}
+			if isCommit || !reachableAfter(fn, acq, k, nil, nil) {
+				continue
+			}
+			var after []*ssa.Call
+			for _, cm := range commits {
+				if reachableAfter(fn, k, cm, nil, nil) {
+					after = append(after, cm)
+				}
+			}
+			if len(after) == 0 {
+				continue
+			}
+			name := p.describeCall(k)
+			// closing an *input* is not a step of producing the output
+			if obj := calleeObj(k.Common()); obj != nil && (obj.Name() == "Close" || obj.Name() == "Chmod") && !p.isMethodCallOn(k, set, map[string]bool{"Close": true}) {
+				continue
+			}
+			n++
+			okey := fmt.Sprintf("%s then-commit %s#%d", key, name, n)
+			if errDisposition(k) == errDropped {
+				c.Fail(rule, okey, p.Pos(k.Pos()), "the error of this step is never examined, yet Commit follows: a failed or partial write would replace the destination as if complete")
+				continue
+			}
+			ev := errValueOf(k)
+			edges := passEdges(fn, errNonNilGuard(ev))
+			var starts []*ssa.BasicBlock
+			for e := range edges {
+				starts = append(starts, fn.Blocks[e.from].Succs[e.succ])
+			}
+			bad := false
+			var path []string
+			if len(starts) > 0 {
+				pred := map[int]int{}
+				seen := reach(fn, starts, nil, pred)
+				for _, cm := range after {
+					if seen[cm.Block().Index] {
+						bad = true
+						path = p.witness(fn, pred, cm.Block().Index)
+					}
+				}
+			}
+			c.Check(!bad, rule, okey, p.Pos(k.Pos()), "failure of this step cannot reach Commit", "Commit is reachable from the failure branch of this step: a partially written file replaces the destination", path...)
 		}
 	}
 }
